@@ -258,6 +258,10 @@ def run(chk, facts, info):
     rule_4004(chk, facts)
     rule_fold(chk, facts)
     rule_r4(chk, facts)
+    chk.rule('C15-R5', '4004/4040 JCN and ISZ: assembler and disassembler take the target page from the same reference, '
+             'the address behind the two-word instruction', min_instances=4)
+    from .c14 import page_reference_rule
+    page_reference_rule(chk, facts, 'C15-R5')
     chk.note('Decided: opcode-by-opcode agreement of assembler and disassembler tables for 6800/6802 and 4004/4040, '
              'well-formed sign-extension/wrap thresholds, branch target formula. Not decided: the 87C800 disassembler '
              '(code-driven), control-flow tracing, label synthesis, the round trip itself.')
